@@ -924,6 +924,9 @@ package http2
 //@ ensures inv: sc.currentWindow <= sc.maxWindow && sc.currentWindow >= sc.maxWindow / 2
 //@ # stream credit: everything received is handed back unless the peer has finished the stream
 //@ ensures strmcredit: n > 0 && !hasflag(fr.flags, 1) ==> called((*serverConn).writeWindowUpdate) >= 1
+//@ # the stream gets back exactly n, the connection exactly what is missing from the full window
+//@ assert@call:(*serverConn).writeWindowUpdate#1 strmamount: arg1 == strm.id && arg2 == n
+//@ assert@call:(*serverConn).writeWindowUpdate#2 connamount: arg1 == 0 && arg2 == sc.maxWindow - (w0 - n)
 
 //@ macro lower(k) = forall(i, 0, len(k), !(k[i] >= 'A' && k[i] <= 'Z'))
 //@ macro connspecific(k) = k == "connection" || k == "keep-alive" || k == "proxy-connection" || k == "transfer-encoding" || k == "upgrade"
@@ -1221,6 +1224,8 @@ package http2
 //@ # RFC 7540 6.9: an increment of 0 is a protocol error, above 2^31-1 is impossible
 //@ requires inc: 1 <= size && size <= 2147483647
 //@ opt noframe=true
+//@ # what is queued is a WINDOW_UPDATE frame for that stream (0: the connection) with exactly that increment
+//@ assert@call:(*Conn).writeOut#1 frame: arg1 != nil && arg1.stream == streamID && typeis(arg1.fr, *WindowUpdate) && as(arg1.fr, *WindowUpdate).increment == size
 
 //@ func (*Conn).readStream
 //@ props C14 C02 C16 C17
@@ -1236,6 +1241,9 @@ package http2
 //@ ensures inv: c.currentWindow >= c.maxWindow / 2 && c.currentWindow <= c.maxWindow
 //@ # stream credit: every octet of a DATA frame, padding included, is handed back
 //@ ensures strmcredit: fr.kind == 0 && fr.length > 0 ==> called((*Conn).updateWindow) >= 1
+//@ # the stream gets back exactly the length of the frame, the connection exactly what is missing from the full window
+//@ assert@call:(*Conn).updateWindow#1 strmamount: arg1 == fr.stream && arg2 == fr.length
+//@ assert@call:(*Conn).updateWindow#2 connamount: arg1 == 0 && arg2 == c.maxWindow - (w0 - fr.length)
 //@ ensures rst: fr.kind == 3 ==> err != nil
 
 //@ func (*HPACK).Next
